@@ -558,15 +558,16 @@ def captcha_ok(rep):
 def judge_rep(verd, ev, rep, ref_cfg, ref_rev, where):
     mode = rep["mode"]
     d = cfg_diff(rep["cfg"], ref_cfg)
-    if d == ["origins"] and set(rep["cfg"]["origins"]) < set(ref_cfg["origins"]) and mode != "replay_log":
-        verd.bad(F5_SIG, "%s: allowed origins %s -> %s (%s); everything else of the config equal" % (
-            where, ref_cfg["origins"], rep["cfg"]["origins"], mode), ev)
-    elif d == ["origins"] and mode == "replay_log" and set(ref_cfg["origins"]) < set(rep["cfg"]["origins"]):
+    if "origins" in d and mode != "replay_log" and set(rep["cfg"]["origins"]) < set(ref_cfg["origins"]):
+        d.remove("origins")
+        verd.bad(F5_SIG, "%s: allowed origins %s -> %s (%s)" % (where, ref_cfg["origins"], rep["cfg"]["origins"], mode), ev)
+    elif "origins" in d and mode == "replay_log" and set(ref_cfg["origins"]) < set(rep["cfg"]["origins"]):
         # the live node lost them in an earlier restore, the log replay has them
+        d.remove("origins")
         verd.bad(F5_SIG, "%s: the node that was restored from a snapshot earlier has origins %s, a replica that replayed the log %s" % (
             where, ref_cfg["origins"], rep["cfg"]["origins"]), ev)
-    elif d:
-        verd.bad("replica-config-differs-%s-%s" % (mode, "-".join(d)),
+    if d:
+        verd.bad("replica-config-differs-%s-%s" % (mode, "-".join(d[:2])),
                  "%s: config projection of the %s replica differs from the node's in %s: %s vs %s" % (
                      where, mode, d, {k: rep["cfg"][k] for k in d}, {k: ref_cfg[k] for k in d}), ev)
     if rep["rev"] != ref_rev:
@@ -665,15 +666,14 @@ def judge(events, verd, stats):
         if a == "Restart":
             stats["restarts"] = stats.get("restarts", 0) + 1
             d = cfg_diff(post["cfg"], pre["cfg"])
-            if d == ["origins"] and set(post["cfg"]["origins"]) < set(pre["cfg"]["origins"]):
+            if "origins" in d and set(post["cfg"]["origins"]) < set(pre["cfg"]["origins"]):
+                d.remove("origins")
                 verd.bad(F5_SIG, "%s: the restarted node (snapshot restore) has origins %s, before %s" % (where, post["cfg"]["origins"], pre["cfg"]["origins"]), ev)
-            elif d:
+            if d:
                 verd.bad("restart-changes-config-" + "-".join(d[:2]), "%s: restart changed %s: %s -> %s" % (
                     where, d, {k: pre["cfg"][k] for k in d}, {k: post["cfg"][k] for k in d}), ev)
             if post["rev"] != pre["rev"]:
                 verd.bad("restart-changes-revision", "%s: revision %d -> %d over a restart" % (where, pre["rev"], post["rev"]), ev)
-            if post["sess"] != pre["sess"]:
-                verd.bad("restart-changes-sessions", "%s: sessions differ after the restart: %s -> %s" % (where, pre["sess"], post["sess"]), ev)
         for rep in ev["reps"]:
             stats["replicas"] = stats.get("replicas", 0) + 1
             judge_rep(verd, ev, rep, pre["cfg"], pre["rev"], where)
@@ -743,11 +743,35 @@ def validate(ctx, events, name):
     return r
 
 
+def report_drift(ctx, tlc_out, events, acc):
+    """the design spec runs beside the observations without re-synchronising:
+    only the first difference of a program is meaningful."""
+    pos = rig_common.drift_positions(tlc_out)
+    firsts = {}
+    for k in pos:
+        ev = events[k - 1] if 0 < k <= len(events) else {}
+        firsts.setdefault(ev.get("p", "?"), (k, ev))
+    for p, (k, ev) in sorted(firsts.items()):
+        short = {x: ev.get(x) for x in ("a", "hdr", "sent", "body", "rev", "s", "cmd", "arg", "via", "mode", "observe", "res", "modelRes") if x in ev}
+        post = ev.get("post") or {}
+        ctx.drift("model and implementation differ, property predicates hold: %s step %s: %s -> observed revision %s, expiration %sm, config %s, sessions %s" % (
+            p, ev.get("i"), json.dumps(short, sort_keys=True), post.get("rev"), post.get("exp"), json.dumps(post.get("cfg"), sort_keys=True), json.dumps(post.get("sess"), sort_keys=True)))
+    if acc[1] and not firsts:
+        ctx.drift("TLC counted %d differences between model and implementation" % acc[1])
+    ctx.cov["drift_events"] = acc[1]
+    ctx.cov["drift_programs"] = len(firsts)
+
+
 # --------------------------------------------------- behaviour generation
+_PROJ = {}
+
+
 def features(beh):
     """what a behaviour exercises (for the greedy cover; never for a verdict)."""
     f = set()
-    proj = {b: project(tomllib.loads(TOML[b])) for b in TOML if not b.startswith("X")}
+    if not _PROJ:
+        _PROJ.update({b: project(tomllib.loads(TOML[b])) for b in TOML if not b.startswith("X")})
+    proj = _PROJ
     cur = proj["P"]
     entries = [("cfg", proj["P"])]      # committed entries: what the newest snapshot could fold
     folded_cfg = None                    # config state of the snapshot lineage
@@ -989,7 +1013,7 @@ def run(ctx):
         if nviol:
             ctx.note("python predicates failed but TLC accepted the trace")
     if acc is not None:
-        rig_common.report_drift(ctx, rt.out, [tlc_event(e) for e in events])
+        report_drift(ctx, rt.out, events, acc)
     if truncated and not nviol and not ctx.known_hits and not ctx.drifts:
         raise vlib.Inconclusive("programs left the model's path without any predicate failing: %s" % truncated[:3])
 
